@@ -103,7 +103,7 @@ pub fn load_known() -> Vec<Known> {
         .collect()
 }
 
-fn fnv(s: &str) -> u64 {
+pub fn fnv(s: &str) -> u64 {
     let mut h = 0xcbf29ce484222325u64;
     for b in s.bytes() {
         h ^= b as u64;
